@@ -176,6 +176,30 @@ def run(ck, facts, tier):
                         ck.violation(R, inst, mb.where(), "a `%s(%s)` goal reaches this arm but the arm only pushes %s clauses, so the goal is "
                                      "unprovable: e.g. `impl ForeignTrait<Local> for u32` fails the orphan check" % (g, kind, sorted(heads)))
             ck.floor(R, "cells", n, 7)
+            # if a tuple (any arity) is given an IsFullyVisible / IsUpstream / IsLocal rule, its conditions range over ALL elements:
+            # the WF rule right beside it deliberately leaves out the last element (it may be unsized) - visibility must not
+            from kit import DROP_ADAPTORS
+            for i_, r_ in select_arms(ms[0], V("Tuple")):
+                for c in calls(ms[0]["arms"][i_]["body"]):
+                    if not c.get("fn", "").endswith(("push_fact", "push_clause")) or len(c.get("args", [])) < 2:
+                        continue
+                    head = ctor_names(c["args"][1], "chalk_ir::DomainGoal")[:1]
+                    if not head or head[0] not in ("IsFullyVisible", "IsUpstream", "IsLocal", "DownstreamType"):
+                        continue
+                    inst = "match_ty:TyKind::Tuple:%s:over-all-elements" % head[0]
+                    conds = c["args"][2] if len(c["args"]) > 2 else None
+                    sliced = conds is not None and any(
+                        (x.get("k") == "index" or (x.get("k") == "call" and callee_matches(x, "Index::index"))) and
+                        any(y.get("k") == "adt" and "ops::range::" in str(y.get("adt", "")) for y in walk(x)) for x in walk(conds))
+                    dropped = conds is not None and any(str(x.get("fn", "")).split("::")[-1] in DROP_ADAPTORS and
+                                                        ("Iterator" in str(x.get("fn", "")) or "slice" in str(x.get("fn", ""))) for x in calls(conds))
+                    if c.get("fn", "").endswith("push_fact") or conds is None:
+                        ck.violation(R, inst, mb.where(c.get("ln")), "a tuple is declared %s unconditionally: its elements are not examined" % head[0])
+                    elif sliced or dropped:
+                        ck.violation(R, inst, mb.where(c.get("ln")), "the conditions of the tuple's %s rule leave out elements (a slice / "
+                                     "element-dropping adaptor): `(u32, T)` would count as %s although it mentions T" % (head[0], head[0]))
+                    else:
+                        ck.ok(R, inst, "conditions over the whole substitution")
 
     # ------------------------------------------------------------------ GOAL
     R = "C20.GOAL"
